@@ -77,9 +77,6 @@ func stubName(fn *ssa.Function) string {
 
 func (in *Interp) callFn(fr *frame, fn *ssa.Function, args []Value, env []Value, site ssa.Instruction) Value {
 	name := stubName(fn)
-	if fn.Pkg == nil && fn.Signature.Recv() == nil && strings.HasPrefix(fn.Name(), "verif") {
-		// cannot happen: intrinsics live in the target package
-	}
 	if strings.HasPrefix(fn.Name(), "verif") && fn.Signature.Recv() == nil {
 		if st, ok := intrinsics[fn.Name()]; ok {
 			return st(in, fr, fn, args)
@@ -160,6 +157,9 @@ func (in *Interp) builtin(fr *frame, b *ssa.Builtin, args []Value, c *ssa.CallCo
 	case "cap":
 		switch x := args[0].(type) {
 		case SliceV:
+			if x.Grown {
+				return in.notEncodable("cap() of a slice whose capacity was chosen by append growth (implementation-defined)")
+			}
 			return P.Const(64, uint64(cap(x.E)))
 		case ArrayV:
 			return P.Const(64, uint64(len(x)))
@@ -188,7 +188,10 @@ func (in *Interp) builtin(fr *frame, b *ssa.Builtin, args []Value, c *ssa.CallCo
 		for i, e := range src {
 			cp[i] = copyVal(e)
 		}
-		return SliceV{E: append(dst.E, cp...)}
+		if len(dst.E)+len(cp) > cap(dst.E) {
+			return SliceV{E: append(dst.E, cp...), Grown: true}
+		}
+		return SliceV{E: append(dst.E, cp...), Grown: dst.Grown}
 	case "copy":
 		dst := args[0].(SliceV)
 		var src []Value
